@@ -116,7 +116,20 @@ fn toks_of(p: Pairs<Rule>) -> Vec<(bool, Rule, usize)> {
 enum Out { Ok(Vec<(bool, Rule, usize)>, usize), Err(usize, Vec<Rule>, Vec<Rule>), Other(String) }
 fn real(e: &E, input: &str) -> Result<Out, String> {
     let mut endpos = 0usize;
-    let r = catch_unwind(AssertUnwindSafe(|| state::<Rule, _>(input, |s| match run(e, s) { Ok(s) => { endpos = s.position().pos(); Ok(s) } Err(s) => Err(s) })));
+    let r = catch_unwind(AssertUnwindSafe(|| {
+        let r = state::<Rule, _>(input, |s| match run(e, s) { Ok(s) => { endpos = s.position().pos(); Ok(s) } Err(s) => Err(s) });
+        if let Err(err) = &r {
+            // C15: with error detail on, the recorded position is a boundary of the input and the help message renders
+            if let Some(a) = err.parse_attempts() {
+                if !input.is_char_boundary(a.max_position) { panic!("max_position {} is not a character boundary", a.max_position); }
+                let to_msg: pest::error::RuleToMessageFn<Rule> = Box::new(|r: &Rule| Some(format!("{:?}", r)));
+                let is_ws: pest::error::IsWhitespaceFn = Box::new(|s: String| s == " ");
+                if let Some(help) = err.parse_attempts_error(input, &to_msg, &is_ws) { let _ = format!("{}", help); }
+            }
+            let _ = format!("{}", err);
+        }
+        r
+    }));
     match r {
         Err(_) => Err("panic".into()),
         Ok(Ok(p)) => Ok(Out::Ok(toks_of(p), endpos)),
@@ -252,6 +265,17 @@ fn wide(shared: usize, keywords: usize) -> E {
     E::Rule(0, Box::new(e))
 }
 const WIDE_INPUTS: [&str; 6] = ["", "z", "a", "ab", "x", "az"];
+/// second wide family: T bare token attempts owned by an open outer rule, then a wrapper rule that starts with a rule trying
+/// A failing rule alternatives at the same position (A >= 4 takes the threshold-collapse branch of try_add_new_stack_rule)
+fn collapse(tokens: usize, alts: usize, wrappers: usize) -> E {
+    let mut inner: Vec<E> = (0..alts.max(1)).map(|_| E::Rule(1, Box::new(E::Str("a")))).collect();
+    let mut e = inner.pop().unwrap();
+    while let Some(a) = inner.pop() { e = E::Alt(Box::new(a), Box::new(e)); }
+    let mut e = E::Rule(2, Box::new(e));
+    for _ in 0..wrappers { e = E::Rule(1, Box::new(E::Seq(Box::new(e), Box::new(E::Str("b"))))); }
+    for _ in 0..tokens { e = E::Alt(Box::new(E::Str("b")), Box::new(e)); }
+    E::Rule(0, Box::new(e))
+}
 
 fn nonprogress(e: &E) -> bool { // repeat over something that can succeed without consuming would not terminate
     match e { E::Rep(a) => nullable(a) || nonprogress(a), E::Seq(a, b) | E::Alt(a, b) => nonprogress(a) || nonprogress(b),
@@ -277,6 +301,11 @@ fn main() {
         if j.contains("\"stage\":\"wide\"") {
             let prog = wide(get("shared").parse().unwrap(), get("keywords").parse().unwrap());
             match check(&prog, &input, "all") { Ok(()) => println!("wide choice (shared {}, keywords {}) on {:?}: agrees with the direct reading on this tree", get("shared"), get("keywords"), input), Err(e) => { println!("FAILS: wide choice (shared {}, keywords {}) on {:?}: {}", get("shared"), get("keywords"), input, e); std::process::exit(1) } }
+            return;
+        }
+        if j.contains("\"stage\":\"collapse\"") {
+            let prog = collapse(get("tokens").parse().unwrap(), get("alts").parse().unwrap(), get("wrappers").parse().unwrap());
+            match check(&prog, &input, "all") { Ok(()) => println!("collapse shape (tokens {}, alternatives {}, wrappers {}) on {:?}: agrees with the direct reading on this tree", get("tokens"), get("alts"), get("wrappers"), input), Err(e) => { println!("FAILS: collapse shape (tokens {}, alternatives {}, wrappers {}) on {:?}: {}", get("tokens"), get("alts"), get("wrappers"), input, e); std::process::exit(1) } }
             return;
         }
         if j.contains("\"stage\":\"deep\"") {
@@ -342,6 +371,13 @@ fn main() {
                     return;
                 } } } }
         }
+        if mode == "C15" {
+            for tk in 0..=5usize { for al in 1..=9usize { for wr in 0..=2usize { let e = collapse(tk, al, wr); for input in WIDE_INPUTS {
+                if let Err(w) = check(&e, input, &mode) {
+                    println!("WITNESS {{\"program_index\":\"0\",\"input\":\"{}\",\"stage\":\"collapse\",\"tokens\":\"{}\",\"alts\":\"{}\",\"wrappers\":\"{}\",\"program\":\"r0 = b (x{}) | wrapper(x{})(r2 = r1 (x{} alternatives))\",\"what\":\"{}\"}}", input, tk, al, wr, tk, wr, al, w.replace('"', "'"));
+                    return;
+                } } } } }
+        }
         let dby = deep_tables();
         let dbudget = std::env::var("VX_STATE_DEEP_S").ok().and_then(|x| x.parse().ok()).unwrap_or(240u64);
         let t1 = std::time::Instant::now(); let mut dn = 0usize; let mut last = 0usize;
@@ -358,7 +394,7 @@ fn main() {
             false
         });
         if found { return; }
-        deep_note = format!("; second stage: {} program/input pairs over {{a, b, the empty literal, ANY, two rules, !, ?, ~, |}} up to 9 nodes (index {} within {} s){}", dn, last, dbudget, if mode == "C15" { "; third stage: wide choices with 0..=36 shared-prefix and 0..=26 keyword alternatives x 6 inputs" } else { "" });
+        deep_note = format!("; second stage: {} program/input pairs over {{a, b, the empty literal, ANY, two rules, !, ?, ~, |}} up to 9 nodes (index {} within {} s){}", dn, last, dbudget, if mode == "C15" { "; third stage: wide choices with 0..=36 shared-prefix and 0..=26 keyword alternatives, and collapse shapes (0..=5 pending tokens, 1..=9 failing rule alternatives, 0..=2 wrapper rules), x 6 inputs" } else { "" });
     }
     println!("NO-WITNESS {} program/input pairs (all programs up to 5 nodes, size 6 up to index {} within {} s) agree with the direct reading{}", n, idx, budget, deep_note);
 }
